@@ -1,6 +1,12 @@
 //! Suite `idl`: the interface-definition parser `IDL::try_from` (C11, C12).
 //!
 //! Case input:   (idl x<text>)
+//!               (idl-deep <nesting depth> x<text>)   deterministic deep-nesting family (C12)
+//!
+//! Every parse runs on a worker thread under a per-case deadline (DEADLINE_MS); a parse that does
+//! not come back is observed as `(timeout <ms>)` (C12: parsing terminates in time proportional to the
+//! input).  After MAX_DEEP_TIMEOUTS timeouts in the deep-nesting family (sorted by depth, so the
+//! smallest offending depth is found first) the rest of that family is `(skipped)`.
 //!
 //! Observation (of the REAL parser, under catch_unwind):
 //!   (ok x<name> x<doc> <description==input> (tk x<key>*) (mk x<key>*) (ek x<key>*)
@@ -9,7 +15,8 @@
 //!       (e (x<name> x<doc> <struct>)*))            errors in error_keys order
 //!   (parse-error <column> x<line text> x<to_string()>)
 //!   (idl-error x<message> x<to_string()>)
-//!   (panic x<msg>)                                  (from main.rs)
+//!   (panic x<msg>)
+//!   (timeout <deadline ms>) | (skipped)
 //!   type   = bool | int | float | string | object | (n x<typename>) | <struct> | <enum>
 //!          | (a type) | (d type) | (o type)
 //!   struct = (s (x<field> type)*)        enum = (e x<field>*)
@@ -868,7 +875,8 @@ fn gen_c12(ctx: &Ctx, rng: &mut Rng, cases: &mut Vec<Case>) {
             }
         }
     }
-    // (5) nesting depth
+    // (5) nesting depth: deterministic families, run in order of depth
+    let mut deep: Vec<(usize, String, &'static str)> = Vec::new();
     let depths: Vec<usize> = if ctx.thorough { (1..=200).collect() } else { vec![1, 2, 3, 5, 10, 25, 50, 100, 150, 199, 200] };
     for d in depths {
         let hdr = "interface a.b\n";
@@ -890,8 +898,36 @@ fn gen_c12(ctx: &Ctx, rng: &mut Rng, cases: &mut Vec<Case>) {
         v.push(nested("\n", "", "x", d));
         v.push(nested("\n", "\n", "interface", d));
         for t in v {
-            cases.push(case_of(&t, &["nesting"]));
+            deep.push((d, t, "nesting"));
         }
+    }
+    //     anonymous structs `(a: (a: (… )))`: valid, trailing comma / syntax error at the innermost level
+    //     (a grammar that re-reads a level on failure doubles its cost per level: the deadline sees it)
+    let sdepths: Vec<usize> = if ctx.thorough {
+        (2..=40).step_by(2).chain([48usize, 64, 96, 128, 160, 200]).collect()
+    } else {
+        vec![8, 16, 20, 24, 32, 64, 200]
+    };
+    for d in sdepths {
+        let hdr = "interface a.b\n";
+        for (leaf, tag) in [
+            ("a: int", "deep-struct:valid"),
+            ("a: int,", "deep-struct:trailing-comma"),
+            ("a: !", "deep-struct:syntax-error"),
+            ("a: (x, y)", "deep-struct:valid-enum-leaf"),
+            ("a: (x, y,)", "deep-struct:trailing-comma-enum-leaf"),
+            ("a: int b", "deep-struct:missing-comma"),
+        ] {
+            deep.push((d, format!("{}type T {}", hdr, nested("(a: ", ")", &format!("({})", leaf), d - 1)), tag));
+            deep.push((d, format!("{}method M() -> {}", hdr, nested("(a: ", ")", &format!("({})", leaf), d - 1)), tag));
+        }
+    }
+    deep.sort_by_key(|(d, _, _)| *d);
+    for (d, t, tag) in deep {
+        cases.push(Case {
+            input: sx::tagged("idl-deep", vec![sx::nat(d), sx::xs(&t)]),
+            tags: vec!["nesting".into(), tag.to_string()],
+        });
     }
     // (6) a few near misses and valid texts as well (positions of ordinary syntax errors)
     for i in 0..(if ctx.thorough { 4000 } else { 800 }) {
@@ -917,40 +953,101 @@ impl Suite for IdlSuite {
         cases
     }
 
-    fn setup(&self, _ctx: &Ctx) {
-        // watchdog: a case that does not come back within 60 s is non-termination (C12)
-        std::thread::spawn(|| {
-            let mut last = HEARTBEAT.load(std::sync::atomic::Ordering::Relaxed);
-            let mut stuck = 0;
-            loop {
-                std::thread::sleep(std::time::Duration::from_millis(500));
-                let now = HEARTBEAT.load(std::sync::atomic::Ordering::Relaxed);
-                if now == last && now != 0 {
-                    stuck += 1;
-                    if stuck > 120 {
-                        eprintln!("idl suite: watchdog: case {} did not terminate within 60 s", now);
-                        std::process::exit(3);
-                    }
-                } else {
-                    stuck = 0;
-                    last = now;
-                }
-            }
-        });
-    }
-
     fn run(&self, _ctx: &Ctx, input: &Sx) -> Sx {
-        HEARTBEAT.fetch_add(1, std::sync::atomic::Ordering::Relaxed);
         let l = match input.as_list() {
-            Some(l) if l.len() == 2 && l[0].as_atom() == Some("idl") => l,
+            Some(l) if !l.is_empty() => l,
             _ => return sx::atom("bad-case"),
         };
-        let text = match l[1].as_str() {
+        let (deep, text) = match (l[0].as_atom(), l.len()) {
+            (Some("idl"), 2) => (false, l[1].as_str()),
+            (Some("idl-deep"), 3) => (true, l[2].as_str()),
+            _ => return sx::atom("bad-case"),
+        };
+        let text = match text {
             Some(t) => t,
             None => return sx::atom("bad-case"),
         };
-        observe(&text)
+        if deep && DEEP_TIMEOUTS.load(Ordering::Relaxed) >= MAX_DEEP_TIMEOUTS {
+            return sx::list(vec![sx::atom("skipped")]);
+        }
+        let obs = observe_with_deadline(text);
+        if deep && matches!(&obs, Sx::List(v) if v.first().and_then(|a| a.as_atom()) == Some("timeout")) {
+            DEEP_TIMEOUTS.fetch_add(1, Ordering::Relaxed);
+        }
+        obs
     }
 }
 
-static HEARTBEAT: std::sync::atomic::AtomicU64 = std::sync::atomic::AtomicU64::new(0);
+use std::sync::atomic::{AtomicUsize, Ordering};
+use std::sync::mpsc::{channel, Receiver, RecvTimeoutError, Sender};
+
+/// Per-case deadline.  The unchanged parser needs well under 10 ms for every generated case
+/// (measured: depth-200 families 1-3 ms each, the 2.2 KiB certification file 0.3 ms); 5 s leaves three
+/// orders of magnitude for a loaded machine.
+pub const DEADLINE_MS: u64 = 5000;
+const MAX_DEEP_TIMEOUTS: usize = 3;
+static DEEP_TIMEOUTS: AtomicUsize = AtomicUsize::new(0);
+
+struct Worker {
+    tx: Sender<String>,
+    rx: Receiver<Sx>,
+}
+
+fn spawn_worker() -> Worker {
+    let (tx, job_rx) = channel::<String>();
+    let (res_tx, rx) = channel::<Sx>();
+    std::thread::Builder::new()
+        .name("idl-parse".into())
+        .stack_size(64 << 20)
+        .spawn(move || {
+            while let Ok(text) = job_rx.recv() {
+                let obs = match std::panic::catch_unwind(|| observe(&text)) {
+                    Ok(o) => o,
+                    Err(e) => {
+                        let msg = if let Some(s) = e.downcast_ref::<String>() {
+                            s.clone()
+                        } else if let Some(s) = e.downcast_ref::<&str>() {
+                            s.to_string()
+                        } else {
+                            "?".into()
+                        };
+                        sx::tagged("panic", vec![sx::xs(&msg)])
+                    }
+                };
+                if res_tx.send(obs).is_err() {
+                    break;
+                }
+            }
+        })
+        .expect("spawn parse worker");
+    Worker { tx, rx }
+}
+
+thread_local! {
+    static WORKER: std::cell::RefCell<Option<Worker>> = std::cell::RefCell::new(None);
+}
+
+/// run `observe` on the worker thread; a parse that misses the deadline is abandoned (the thread is
+/// left behind and a fresh worker takes over) and reported as `(timeout <ms>)`
+pub fn observe_with_deadline(text: String) -> Sx {
+    WORKER.with(|w| {
+        let mut w = w.borrow_mut();
+        if w.is_none() {
+            *w = Some(spawn_worker());
+        }
+        let wk = w.as_ref().unwrap();
+        wk.tx.send(text).expect("worker alive");
+        match wk.rx.recv_timeout(std::time::Duration::from_millis(DEADLINE_MS)) {
+            Ok(o) => o,
+            Err(RecvTimeoutError::Timeout) => {
+                *w = None;
+                sx::tagged("timeout", vec![sx::nat(DEADLINE_MS as usize)])
+            }
+            Err(RecvTimeoutError::Disconnected) => {
+                *w = None;
+                sx::tagged("panic", vec![sx::xs("parse worker died")])
+            }
+        }
+    })
+}
+
